@@ -126,7 +126,7 @@ package redis
 // ---- C10: decimal parsing -------------------------------------------------------
 
 //@ func btoi64
-//@   prop C10 C18 C11
+//@   prop C10 C18 C11 C03 C01 C02
 //@   modifies nothing
 //@   ensures @value result1 == nil ==> wellformed(str(b)) && result0 == sdec(str(b))
 //@   ensures @accepts wellformed(str(b)) && len(b) < 19 ==> result1 == nil
@@ -169,13 +169,13 @@ package redis
 // ---- buffered reader (C10 C11): representation invariant ---------------------------
 
 //@ func (*sliceAlloc).alloc
-//@   prop C10 C11
+//@   prop C10 C11 C03 C01 C18 C02
 //@   requires d != nil && 0 <= n
 //@   modifies d.allocs
 //@   ensures @fresh-exact len(result) == n && cap(result) == n && fresh(result)
 
 //@ func (*sliceAlloc).Make
-//@   prop C10 C11
+//@   prop C10 C11 C03 C01 C18 C02
 //@   requires d != nil && 0 <= n
 //@   modifies d.allocs, d.buf
 //@   ensures @len len(ss) == n && cap(ss) == n
@@ -184,13 +184,13 @@ package redis
 //@   ensures @slab-suffix fresh(d.buf) || (within(d.buf, old(d.buf)) && withincap(d.buf, old(d.buf)))
 
 //@ func (*Reader).buffered
-//@   prop C10 C11
+//@   prop C10 C11 C03 C01 C18 C02
 //@   requires readerRI(b)
 //@   modifies nothing
 //@   ensures result == b.w - b.r
 
 //@ func (*Reader).fill
-//@   prop C10 C11
+//@   prop C10 C11 C03 C01 C18 C02
 //@   requires readerRI(b)
 //@   modifies b.r, b.w, b.err, b.buf[0:len(b.buf)]
 //@   ensures @ri readerRI(b) && len(b.buf) == old(len(b.buf)) && b.buf == old(b.buf)
@@ -206,21 +206,21 @@ package redis
 //@   alsoprop C01 C02 C03 : the-source-is-offered-all-the-room-not-occupied-by-unread-bytes progress
 
 //@ func (*Reader).ReadByte
-//@   prop C10 C11
+//@   prop C10 C11 C03 C01 C18 C02
 //@   requires readerRI(b) && (b.err == nil ==> windowok(b))
 //@   modifies b.r, b.w, b.err, b.buf[0:len(b.buf)], fetched
 //@   ensures @ri readerRI(b) && b.buf == old(b.buf) && b.rd == old(b.rd) && (b.err == nil ==> windowok(b))
 //@   ensures @next-stream-byte result1 == nil ==> b.err == nil && result0 == stream[src(b)][old(rpos(b))] && rpos(b) == old(rpos(b)) + 1
 
 //@ func (*Reader).PeekByte
-//@   prop C10 C11
+//@   prop C10 C11 C03 C01 C18 C02
 //@   requires readerRI(b) && (b.err == nil ==> windowok(b))
 //@   modifies b.r, b.w, b.err, b.buf[0:len(b.buf)], fetched
 //@   ensures @ri readerRI(b) && b.buf == old(b.buf) && b.rd == old(b.rd) && (b.err == nil ==> windowok(b))
 //@   ensures @next-stream-byte-not-consumed result1 == nil ==> b.err == nil && result0 == stream[src(b)][old(rpos(b))] && rpos(b) == old(rpos(b))
 
 //@ func (*Reader).Read
-//@   prop C10 C11
+//@   prop C10 C11 C03 C01 C18 C02
 //@   requires readerRI(b) && (b.err == nil ==> windowok(b)) && disjoint(p, b.buf)
 //@   modifies b.r, b.w, b.err, b.buf[0:len(b.buf)], p[0:len(p)], fetched
 //@   ensures @ri readerRI(b) && b.buf == old(b.buf) && b.rd == old(b.rd) && (b.err == nil ==> windowok(b))
@@ -228,7 +228,7 @@ package redis
 //@   ensures @next-stream-bytes result1 == nil && old(b.err) == nil ==> b.err == nil && rpos(b) == old(rpos(b)) + result0 && forall k int :: 0 <= k && k < result0 ==> p[k] == stream[src(b)][old(rpos(b)) + k]
 
 //@ func (*Reader).ReadSlice
-//@   prop C10 C11
+//@   prop C10 C11 C03 C01 C18 C02
 //@   requires readerRI(b) && (b.err == nil ==> windowok(b))
 //@   modifies b.r, b.w, b.err, b.buf[0:len(b.buf)], fetched
 //@   ensures @ri readerRI(b) && b.buf == old(b.buf) && b.rd == old(b.rd) && (b.err == nil ==> windowok(b))
@@ -243,7 +243,7 @@ package redis
 //@   loop 0 invariant readerRI(b) && b.buf == old(b.buf) && b.rd == old(b.rd) && b.err == nil && windowok(b) && rpos(b) == old(rpos(b))
 
 //@ func (*Reader).ReadBytes
-//@   prop C10 C11 C03 C01
+//@   prop C10 C11 C03 C01 C18 C02
 //@   requires readerRI(b) && (b.err == nil ==> windowok(b))
 //@   modifies b.r, b.w, b.err, b.buf[0:len(b.buf)], b.slice.allocs, b.slice.buf, b.slice.buf[0:len(b.slice.buf)], fetched
 //@   ensures @ri readerRI(b) && b.buf == old(b.buf) && b.rd == old(b.rd) && (b.err == nil ==> windowok(b))
@@ -296,7 +296,7 @@ package redis
 //@   ensures @slab-only-shrinks-or-is-new fresh(b.slice.buf) || (within(b.slice.buf, old(b.slice.buf)) && withincap(b.slice.buf, old(b.slice.buf)))
 
 //@ func (*Reader).ReadFull
-//@   prop C10 C11 C03 C01
+//@   prop C10 C11 C03 C01 C18 C02
 //@   requires readerRI(b) && (b.err == nil ==> windowok(b)) && 0 <= n && disjoint(b.buf, b.slice.buf)
 //@   modifies b.r, b.w, b.err, b.buf[0:len(b.buf)], b.slice.allocs, b.slice.buf, b.slice.buf[0:len(b.slice.buf)], fetched
 //@   ensures @ri readerRI(b) && b.buf == old(b.buf) && b.rd == old(b.rd) && (b.err == nil ==> windowok(b)) && disjoint(b.buf, b.slice.buf)
@@ -307,14 +307,14 @@ package redis
 // ---- RESP decoder (C10 C11) ---------------------------------------------------------
 
 //@ func (*decoder).decodeInt
-//@   prop C10 C11 C01
+//@   prop C10 C11 C01 C03 C18 C02
 //@   requires decoderOK(d)
 //@   modifies d.br.r, d.br.w, d.br.err, d.br.buf[0:len(d.br.buf)], fetched
 //@   ensures @ri decoderOK(d) && d.br == old(d.br)
 //@   ensures @a-number-was-read-from-a-healthy-reader result1 == nil ==> d.br.err == nil && rpos(d.br) >= old(rpos(d.br)) + 2
 
 //@ func (*decoder).decodeTextBytes
-//@   prop C10 C11 C03 C01
+//@   prop C10 C11 C03 C01 C18 C02
 //@   requires decoderOK(d)
 //@   modifies d.br.r, d.br.w, d.br.err, d.br.buf[0:len(d.br.buf)], d.br.slice.allocs, d.br.slice.buf, d.br.slice.buf[0:len(d.br.slice.buf)], fetched
 //@   ensures @ri decoderOK(d) && d.br == old(d.br)
@@ -325,7 +325,7 @@ package redis
 //@   ensures @slab-only-shrinks-or-is-new fresh(d.br.slice.buf) || (within(d.br.slice.buf, old(d.br.slice.buf)) && withincap(d.br.slice.buf, old(d.br.slice.buf)))
 
 //@ func (*decoder).decodeBulkString
-//@   prop C10 C11 C03 C01
+//@   prop C10 C11 C03 C01 C18 C02
 //@   requires decoderOK(d)
 //@   modifies d.br.r, d.br.w, d.br.err, d.br.buf[0:len(d.br.buf)], d.br.slice.allocs, d.br.slice.buf, d.br.slice.buf[0:len(d.br.slice.buf)], fetched
 //@   ensures @ri decoderOK(d) && d.br == old(d.br)
@@ -336,7 +336,7 @@ package redis
 //@   ensures @slab-only-shrinks-or-is-new fresh(d.br.slice.buf) || (within(d.br.slice.buf, old(d.br.slice.buf)) && withincap(d.br.slice.buf, old(d.br.slice.buf)))
 
 //@ func (*decoder).decodeArray
-//@   prop C10 C11 C01
+//@   prop C10 C11 C01 C03 C18 C02
 //@   flag bounded-recursion
 //@   decreases 3 * (32 - d.depth)
 //@   requires @nesting-depth-in-range 0 <= d.depth && d.depth <= 32
@@ -345,6 +345,7 @@ package redis
 //@   modifies d.depth, d.err, d.br.r, d.br.w, d.br.err, d.br.buf[0:len(d.br.buf)], d.br.slice.allocs, d.br.slice.buf, d.br.slice.buf[0:len(d.br.slice.buf)], fetched
 //@   ensures @ri d.br == old(d.br) && decoderOK(d)
 //@   ensures @bounded result1 == nil ==> len(result0) <= 1048576
+//@   proves @ret:5 @nesting-is-refused-only-at-the-documented-depth-of-32 d.depth >= 32
 //@   proves @null-only-for-a-header-of-minus-one-otherwise-as-many-elements-as-the-header-says result1 == nil ==> (isnil(result0) == (n == 0 - 1)) && (n >= 0 ==> len(result0) == n)
 //@   alsoprop C03 C18 C02 : null-only-for-a-header-of-minus-one-otherwise-as-many-elements-as-the-header-says
 //@   loop 0 invariant d.br == old(d.br) && decoderOK(d) && len(array) == n && n <= 1048576 && d.depth == old(d.depth) + 1 && d.depth <= 32
@@ -352,7 +353,7 @@ package redis
 //@   ensures @slab-only-shrinks-or-is-new fresh(d.br.slice.buf) || (within(d.br.slice.buf, old(d.br.slice.buf)) && withincap(d.br.slice.buf, old(d.br.slice.buf)))
 
 //@ func (*decoder).decodeInline
-//@   prop C10 C11 C01
+//@   prop C10 C11 C01 C03 C18 C02
 //@   requires decoderOK(d)
 //@   modifies d.depth, d.err, d.br.r, d.br.w, d.br.err, d.br.buf[0:len(d.br.buf)], d.br.slice.allocs, d.br.slice.buf, d.br.slice.buf[0:len(d.br.slice.buf)], fetched
 //@   ensures @ri d.br == old(d.br) && decoderOK(d)
@@ -363,7 +364,7 @@ package redis
 //@   ensures @slab-only-shrinks-or-is-new fresh(d.br.slice.buf) || (within(d.br.slice.buf, old(d.br.slice.buf)) && withincap(d.br.slice.buf, old(d.br.slice.buf)))
 
 //@ func (*decoder).decodeResp
-//@   prop C10 C11 C01
+//@   prop C10 C11 C01 C03 C18 C02
 //@   flag bounded-recursion
 //@   decreases 3 * (32 - d.depth) + 1
 //@   requires @nesting-depth-in-range 0 <= d.depth && d.depth <= 32
@@ -376,7 +377,7 @@ package redis
 //@   ensures @slab-only-shrinks-or-is-new fresh(d.br.slice.buf) || (within(d.br.slice.buf, old(d.br.slice.buf)) && withincap(d.br.slice.buf, old(d.br.slice.buf)))
 
 //@ func (*decoder).decode
-//@   prop C10 C11 C01
+//@   prop C10 C11 C01 C03 C18 C02
 //@   flag bounded-recursion
 //@   decreases 3 * (32 - d.depth) + 2
 //@   requires @nesting-depth-in-range 0 <= d.depth && d.depth <= 32
@@ -389,7 +390,7 @@ package redis
 //@   ensures @slab-only-shrinks-or-is-new fresh(d.br.slice.buf) || (within(d.br.slice.buf, old(d.br.slice.buf)) && withincap(d.br.slice.buf, old(d.br.slice.buf)))
 
 //@ func (*decoder).Decode
-//@   prop C10 C11 C01
+//@   prop C10 C11 C01 C03 C18 C02
 //@   requires decoderOK(d)
 //@   requires @nesting-depth-in-range 0 <= d.depth && d.depth <= 32
 //@   ensures @nesting-depth-restored d.depth == old(d.depth)
@@ -402,7 +403,7 @@ package redis
 // ---- RESP value constructors -----------------------------------------------------------
 
 //@ func newArray
-//@   prop C10 C11 C01
+//@   prop C10 C11 C01 C03 C18 C02
 //@   modifies nothing
 //@   ensures @value result != nil && fresh(result) && result.Type == 42 && result.Array == array
 
@@ -441,7 +442,7 @@ package redis
 // ---- C11: request validation and handlers (no-panic sweep with the facts IsValid establishes) ---------
 
 //@ func (*rawRequest).IsValid
-//@   prop C11 C14
+//@   prop C11 C01 C14 C02 C14
 //@   requires r != nil && r.body != nil
 //@   modifies nothing
 //@   ensures @bulk-array valid ==> validbody(r.body)
@@ -691,7 +692,7 @@ package redis
 // ---- encoder (C10 C11 C01) ---------------------------------------------------------------------------
 
 //@ func (*encoder).encode
-//@   prop C10 C11 C01
+//@   prop C10 C11 C01 C03 C18 C02
 //@   modifies wrote, wlen
 //@   requires v != nil
 //@   ensures @a-simple-string-or-error-is-its-type-byte-its-text-and-crlf result == nil && (v.Type == 43 || v.Type == 45) ==> wlen[e.bw] == old(wlen[e.bw]) + 1 + len(v.Text) + 2 && wrote[e.bw][old(wlen[e.bw])] == v.Type && wrote[e.bw][old(wlen[e.bw]) + 1 + len(v.Text)] == 13 && wrote[e.bw][old(wlen[e.bw]) + 2 + len(v.Text)] == 10 && forall k int :: 0 <= k && k < len(v.Text) ==> wrote[e.bw][old(wlen[e.bw]) + 1 + k] == v.Text[k]
@@ -701,46 +702,46 @@ package redis
 //@   ensures @other-writers-untouched forall x loc :: x != e.bw ==> wlen[x] == old(wlen[x]) && wrote[x] == old(wrote[x])
 
 //@ func (*encoder).encodeArray
-//@   prop C10 C11 C01
+//@   prop C10 C11 C01 C03 C18 C02
 //@   modifies wrote, wlen
 //@   ensures @append-only wlen[e.bw] >= old(wlen[e.bw]) && forall k int :: k < old(wlen[e.bw]) ==> wrote[e.bw][k] == old(wrote[e.bw][k])
 //@   ensures @other-writers-untouched forall x loc :: x != e.bw ==> wlen[x] == old(wlen[x]) && wrote[x] == old(wrote[x])
 //@   loop 0 invariant e.bw == old(e.bw) && wlen[e.bw] >= old(wlen[e.bw]) && (forall k int :: k < old(wlen[e.bw]) ==> wrote[e.bw][k] == old(wrote[e.bw][k])) && forall x loc :: x != e.bw ==> wlen[x] == old(wlen[x]) && wrote[x] == old(wrote[x])
 
 //@ func (*encoder).encodeBulkBytes
-//@   prop C10 C11 C01
+//@   prop C10 C11 C01 C03 C18 C02
 //@   modifies wrote, wlen
 //@   ensures @header-line-then-payload-then-crlf result == nil && !isnil(b) ==> wlen[e.bw] >= old(wlen[e.bw]) + 2 + len(b) + 2 && wrote[e.bw][wlen[e.bw] - 2] == 13 && wrote[e.bw][wlen[e.bw] - 1] == 10 && wrote[e.bw][wlen[e.bw] - len(b) - 4] == 13 && wrote[e.bw][wlen[e.bw] - len(b) - 3] == 10 && forall k int :: 0 <= k && k < len(b) ==> wrote[e.bw][wlen[e.bw] - 2 - len(b) + k] == b[k]
 //@   ensures @append-only wlen[e.bw] >= old(wlen[e.bw]) && forall k int :: k < old(wlen[e.bw]) ==> wrote[e.bw][k] == old(wrote[e.bw][k])
 //@   ensures @other-writers-untouched forall x loc :: x != e.bw ==> wlen[x] == old(wlen[x]) && wrote[x] == old(wrote[x])
 
 //@ func (*encoder).encodeInt
-//@   prop C10 C11 C01
+//@   prop C10 C11 C01 C03 C18 C02
 //@   modifies wrote, wlen
 //@   ensures @a-line-appended result == nil ==> wlen[e.bw] >= old(wlen[e.bw]) + 2 && wrote[e.bw][wlen[e.bw] - 2] == 13 && wrote[e.bw][wlen[e.bw] - 1] == 10
 //@   ensures @append-only wlen[e.bw] >= old(wlen[e.bw]) && forall k int :: k < old(wlen[e.bw]) ==> wrote[e.bw][k] == old(wrote[e.bw][k])
 //@   ensures @other-writers-untouched forall x loc :: x != e.bw ==> wlen[x] == old(wlen[x]) && wrote[x] == old(wrote[x])
 
 //@ func itoa
-//@   prop C10 C11
+//@   prop C10 C11 C03 C01 C18 C02
 //@   modifies nothing
 
 //@ func (*encoder).encodeTextBytes
-//@   prop C10 C11 C01
+//@   prop C10 C11 C01 C03 C18 C02
 //@   modifies wrote, wlen
 //@   ensures @text-then-crlf-appended result == nil ==> wlen[e.bw] == old(wlen[e.bw]) + len(b) + 2 && wrote[e.bw][old(wlen[e.bw]) + len(b)] == 13 && wrote[e.bw][old(wlen[e.bw]) + len(b) + 1] == 10 && forall k int :: 0 <= k && k < len(b) ==> wrote[e.bw][old(wlen[e.bw]) + k] == b[k]
 //@   ensures @append-only wlen[e.bw] >= old(wlen[e.bw]) && forall k int :: k < old(wlen[e.bw]) ==> wrote[e.bw][k] == old(wrote[e.bw][k])
 //@   ensures @other-writers-untouched forall x loc :: x != e.bw ==> wlen[x] == old(wlen[x]) && wrote[x] == old(wrote[x])
 
 //@ func (*encoder).encodeTextString
-//@   prop C10 C11 C01
+//@   prop C10 C11 C01 C03 C18 C02
 //@   modifies wrote, wlen
 //@   ensures @text-then-crlf-appended result == nil ==> wlen[e.bw] == old(wlen[e.bw]) + len(s) + 2 && wrote[e.bw][old(wlen[e.bw]) + len(s)] == 13 && wrote[e.bw][old(wlen[e.bw]) + len(s) + 1] == 10 && forall k int :: 0 <= k && k < len(s) ==> wrote[e.bw][old(wlen[e.bw]) + k] == s[k]
 //@   ensures @append-only wlen[e.bw] >= old(wlen[e.bw]) && forall k int :: k < old(wlen[e.bw]) ==> wrote[e.bw][k] == old(wrote[e.bw][k])
 //@   ensures @other-writers-untouched forall x loc :: x != e.bw ==> wlen[x] == old(wlen[x]) && wrote[x] == old(wrote[x])
 
 //@ func (*encoder).writeCRLF
-//@   prop C10 C11 C01
+//@   prop C10 C11 C01 C03 C18 C02
 //@   modifies wrote, wlen
 //@   assume len(CRLF) == 2 && CRLF[0] == 13 && CRLF[1] == 10
 //@   ensures @crlf-appended err == nil ==> wlen[e.bw] == old(wlen[e.bw]) + 2 && wrote[e.bw][old(wlen[e.bw])] == 13 && wrote[e.bw][old(wlen[e.bw]) + 1] == 10
@@ -750,7 +751,7 @@ package redis
 // ---- C10: the precomputed itoa table (package init) ---------------------------------------------
 
 //@ func init#1
-//@   prop C10 C11
+//@   prop C10 C11 C03 C01 C18 C02
 //@   modifies heap("[]uint32"), heap("@string"), buflen
 //@   assume forall x loc :: fresh(x) ==> buflen[x] == 0
 //@   loop 0 invariant 0 <= buflen[b] && buflen[b] <= 20 * (rangeindex + 1)
@@ -957,7 +958,7 @@ package redis
 //@   consumes deref(req)
 
 //@ func (*encoder).Encode
-//@   prop C10 C01 C02
+//@   prop C10 C01 C02 C03 C18
 //@   alsoprop C11 : no-panic
 //@   requires v != nil
 //@   modifies e.err, encn, enclast, wrote, wlen
@@ -968,7 +969,7 @@ package redis
 //@   ensures @a-failed-write-is-latched result != nil ==> e.err != nil
 
 //@ func (*encoder).Flush
-//@   prop C10 C01 C02
+//@   prop C10 C01 C02 C03 C18
 //@   alsoprop C11 : no-panic
 //@   modifies e.err
 //@   ensures @a-failed-flush-is-latched result != nil ==> e.err != nil
@@ -1248,22 +1249,22 @@ package redis
 // ---- C10/C09/C01: constructors: a new reader, decoder and session start in their invariants -----------------
 
 //@ func NewReaderSize
-//@   prop C10 C11 C01
+//@   prop C10 C11 C01 C03 C18 C02
 //@   modifies nothing
 //@   ensures @a-new-reader-is-empty-and-well-formed result != nil && (!typeis(rd, "*Reader") ==> fresh(result) && readerRI(result) && result.r == 0 && result.w == 0 && result.err == nil && isnil(result.slice.buf) && disjoint(result.buf, result.slice.buf) && result.rd == rd && len(result.buf) == ite(size <= 0, 4096, size))
 
 //@ func NewReader
-//@   prop C10 C11
+//@   prop C10 C11 C03 C01 C18 C02
 //@   modifies nothing
 //@   ensures @a-new-reader-is-empty-and-well-formed result != nil && (!typeis(rd, "*Reader") ==> fresh(result) && readerRI(result) && result.r == 0 && result.w == 0 && result.err == nil && isnil(result.slice.buf) && disjoint(result.buf, result.slice.buf) && result.rd == rd)
 
 //@ func newDecoder
-//@   prop C10 C11 C01
+//@   prop C10 C11 C01 C03 C18 C02
 //@   modifies nothing
 //@   ensures @a-new-decoder-is-well-formed result != nil && fresh(result) && result.err == nil && result.depth == 0 && (!typeis(r, "*Reader") ==> decoderOK(result))
 
 //@ func newEncoder
-//@   prop C10 C01
+//@   prop C10 C01 C03 C18 C02
 //@   alsoprop C11 : no-panic
 //@   modifies nothing
 //@   ensures @a-new-encoder-has-no-error result != nil && fresh(result) && result.err == nil && result.bw != nil
@@ -1424,19 +1425,19 @@ package redis
 // ---- C10: the remaining reply constructors -----------------------------------------------------------------------
 
 //@ func newSimpleBytes
-//@   prop C10 C01
+//@   prop C10 C01 C03 C18 C02
 //@   alsoprop C11 : no-panic
 //@   modifies nothing
 //@   ensures @value result != nil && fresh(result) && result.Type == 43 && result.Text == b
 
 //@ func newNullBulkString
-//@   prop C10
+//@   prop C10 C03 C01 C18 C02
 //@   alsoprop C11 : no-panic
 //@   modifies nothing
 //@   ensures @value result != nil && fresh(result) && result.Type == 36 && isnil(result.Text)
 
 //@ func newByteArray
-//@   prop C10
+//@   prop C10 C03 C01 C18 C02
 //@   alsoprop C11 : no-panic
 //@   modifies nothing
 //@   ensures @one-bulk-string-per-argument result != nil && fresh(result) && result.Type == 42 && len(result.Array) == len(b) && forall k int :: 0 <= k && k < len(b) ==> result.Array[k].Type == 36 && result.Array[k].Text == b[k]
@@ -1627,6 +1628,7 @@ package redis
 //@   prop C14 C20
 //@   modifies nothing
 //@   ensures @allocated result != nil && fresh(result)
+//@   ensures @all-three-counters-come-from-the-own-child-scope-of-the-command result.Total == scopectr(childscope(scope, cmd), "total") && result.Success == scopectr(childscope(scope, cmd), "success") && result.Error == scopectr(childscope(scope, cmd), "error")
 
 //@ func (*redisProc).addHandler
 //@   prop C14 C03 C12
